@@ -179,7 +179,12 @@ func (m *Model) Run(inputs Tensors) (Tensors, error) {
 
 	outputTensors := make(Tensors)
 	for _, outputName := range m.OutputNames() {
-		outputTensors[outputName] = tensors[outputName]
+		outputTensor := tensors[outputName]
+		if outputTensor == nil {
+			return nil, ErrModel("no tensor was produced for output %v", outputName)
+		}
+
+		outputTensors[outputName] = outputTensor
 	}
 
 	return outputTensors, nil
